@@ -94,11 +94,13 @@ func vfShapes() []vfShapeDef {
 		{"MultiPoint{}", true, func(g *vfGen) ORBQGeometry { return ORBQMultiPoint{} }},
 		{"MultiPoint[1]", true, func(g *vfGen) ORBQGeometry { return ORBQMultiPoint(g.pts(1)) }},
 		{"MultiPoint[2]", true, func(g *vfGen) ORBQGeometry { return ORBQMultiPoint(g.pts(2)) }},
+		{"MultiPoint[4]", false, func(g *vfGen) ORBQGeometry { return ORBQMultiPoint(g.pts(4)) }},
 		{"MultiPoint[3]", false, func(g *vfGen) ORBQGeometry { return ORBQMultiPoint(g.pts(3)) }},
 		{"LineString(nil)", true, func(g *vfGen) ORBQGeometry { return ORBQLineString(nil) }},
 		{"LineString{}", true, func(g *vfGen) ORBQGeometry { return ORBQLineString{} }},
 		{"LineString[1]", true, func(g *vfGen) ORBQGeometry { return ORBQLineString(g.pts(1)) }},
 		{"LineString[2]", true, func(g *vfGen) ORBQGeometry { return ORBQLineString(g.pts(2)) }},
+		{"LineString[4]", true, func(g *vfGen) ORBQGeometry { return ORBQLineString(g.pts(4)) }},
 		{"LineString[3]", false, func(g *vfGen) ORBQGeometry { return ORBQLineString(g.pts(3)) }},
 		{"MultiLineString(nil)", true, func(g *vfGen) ORBQGeometry { return ORBQMultiLineString(nil) }},
 		{"MultiLineString{}", true, func(g *vfGen) ORBQGeometry { return ORBQMultiLineString{} }},
@@ -113,6 +115,8 @@ func vfShapes() []vfShapeDef {
 		{"Ring{}", true, func(g *vfGen) ORBQGeometry { return ORBQRing{} }},
 		{"Ring[1]", true, func(g *vfGen) ORBQGeometry { return ORBQRing(g.pts(1)) }},
 		{"Ring[3]", true, func(g *vfGen) ORBQGeometry { return ORBQRing(g.pts(3)) }},
+		{"Ring[4]", true, func(g *vfGen) ORBQGeometry { return ORBQRing(g.pts(4)) }},
+		{"Ring[5]", false, func(g *vfGen) ORBQGeometry { return ORBQRing(g.pts(5)) }},
 		{"Ring[3+close]", true, func(g *vfGen) ORBQGeometry { return g.closed(3) }},
 		{"Ring[4+close]", false, func(g *vfGen) ORBQGeometry { return g.closed(4) }},
 		{"Polygon(nil)", true, func(g *vfGen) ORBQGeometry { return ORBQPolygon(nil) }},
@@ -120,6 +124,8 @@ func vfShapes() []vfShapeDef {
 		{"Polygon[[0]]", true, func(g *vfGen) ORBQGeometry { return g.poly(0) }},
 		{"Polygon[[nil]]", true, func(g *vfGen) ORBQGeometry { return g.poly(-1) }},
 		{"Polygon[[3]]", true, func(g *vfGen) ORBQGeometry { return g.poly(3) }},
+		{"Polygon[[4]]", true, func(g *vfGen) ORBQGeometry { return g.poly(4) }},
+		{"Polygon[[5],[4]]", false, func(g *vfGen) ORBQGeometry { return g.poly(5, 4) }},
 		{"Polygon[[3+c]]", true, func(g *vfGen) ORBQGeometry { return ORBQPolygon{g.closed(3)} }},
 		{"Polygon[[3],[3]]", true, func(g *vfGen) ORBQGeometry { return g.poly(3, 3) }},
 		{"Polygon[[0],[3]]", true, func(g *vfGen) ORBQGeometry { return g.poly(0, 3) }},
